@@ -508,10 +508,31 @@ func (p *SolverPool) Solve(asserts []*Term, timeoutMs int, portfolio []SolverKin
 		}()
 	}
 	got := 0
+	var abstractSat *QueryResult
+	var grace <-chan time.Time
 	for got < len(cands) {
-		r := <-ch
+		var r QueryResult
+		select {
+		case r = <-ch:
+		case <-grace:
+			// no precise answer in time: go with the abstract candidate (replay decides)
+			killLosers()
+			go func(n int) {
+				for i := 0; i < n; i++ {
+					<-ch
+				}
+			}(len(cands) - got)
+			return *abstractSat
+		}
 		got++
 		if r.Verdict != Unknown {
+			if r.Abstract && r.Verdict == Sat && got < len(cands) {
+				// prefer a precise verdict if one arrives within 5 s
+				rr := r
+				abstractSat = &rr
+				grace = time.After(5 * time.Second)
+				continue
+			}
 			// the losers are killed at once (a solver that keeps running would starve the other workers)
 			killLosers()
 			go func(n int) {
@@ -522,6 +543,9 @@ func (p *SolverPool) Solve(asserts []*Term, timeoutMs int, portfolio []SolverKin
 			return r
 		}
 		last = r
+	}
+	if abstractSat != nil {
+		return *abstractSat
 	}
 	r := run1(kindZ3New, script, true, "")
 	if r.Verdict != Unknown {
